@@ -137,7 +137,9 @@ Aux:
 	if 0 < len(rest) {
 		ss.Let(restSym, rest)
 	}
-	// Next bind any unbound &key vars
+	// Next bind the optional, rest, and key vars that were not given a value
+	// by the call. A variable of the same name in the closure or in the
+	// scope of the caller is not a value for the parameter.
 	mode = reqMode
 	for _, ad := range lam.Doc.Args {
 		switch mode {
@@ -165,7 +167,7 @@ Aux:
 			case AmpAllowOtherKeys:
 				// ignore
 			default:
-				if !ss.Bound(Symbol(ad.Name)) {
+				if !ss.localHas(ad.Name) {
 					ss.Let(Symbol(ad.Name), ad.Default)
 				}
 			}
@@ -178,7 +180,7 @@ Aux:
 			case AmpAllowOtherKeys:
 				// ignore
 			default:
-				if !ss.Bound(Symbol(ad.Name)) {
+				if !ss.localHas(ad.Name) {
 					ss.Let(Symbol(ad.Name), ad.Default)
 				}
 			}
@@ -186,7 +188,7 @@ Aux:
 			asym := Symbol(ad.Name)
 			if AmpAux == asym {
 				mode = auxMode
-			} else if !ss.Bound(asym) {
+			} else if !ss.localHas(ad.Name) {
 				ss.Let(asym, ad.Default)
 			}
 		case auxMode:
